@@ -93,7 +93,65 @@ class Engine(_Base, ExprMixin, CallMixin, StmtMixin):
         return self._quant(st, e, True)
 
     def comprehension(self, st, e, kind):
-        self.unsupported(e, 'comprehension')
+        """[elt for x in source if cond]: a NEW list of unknown length (an over-approximation of the real one: order and
+        multiplicity are not modelled).  When the element is the loop variable itself, every member is known to come from the
+        source and to satisfy the filter.  Side effects inside a comprehension are not supported."""
+        if kind != 'list' or len(e.generators) != 1 or e.generators[0].is_async:
+            self.unsupported(e, 'comprehension')
+        comp = e.generators[0]
+        out = []
+        for s0, it in self.eval(st, comp.iter):
+            if s0.exc is not None:
+                out.append((s0, None))
+                continue
+            if isinstance(it, VList):
+                it = self.list_as_seq(s0, it)
+            if isinstance(it, VDict):
+                it = VFunc('dictiter', dict=it, mode='keys')
+            # one arbitrary item of the source, to learn the element type and to state the membership fact
+            if isinstance(it, VFunc) and it.kind == 'dictiter':
+                d = it.dict
+                k = z3.Const(fresh_name('ck'), sort_of(d.k))
+                key = from_term(d.k, k)
+                val = from_term(d.v, z3.Select(self.dict_vals(s0, d), k))
+                item = {'items': VTuple([key, val]), 'keys': key, 'values': val}[it.mode]
+                member = lambda kk, d=d: z3.Select(self.dict_dom(s0, d), kk)
+                bound = k
+            elif isinstance(it, VSeq):
+                j = z3.Int(fresh_name('cj'))
+                item, member, bound = it.at(j), None, None
+            elif isinstance(it, VTuple) and it.items:
+                item, member, bound = it.items[0], None, None
+            else:
+                self.unsupported(e, 'comprehension over %r' % (it,))
+            fid = s0.new_frame(s0.cur, None)
+            save = s0.cur
+            s0.cur = fid
+            self.spec_mode += 1
+            try:
+                self.assign(s0, comp.target, item, e)
+                conds = []
+                for c in comp.ifs:
+                    (s2, cv), = self.eval(s0, c)
+                    conds.append(self.truth(s0, cv))
+                (s2, v), = self.eval(s0, e.elt)
+            finally:
+                self.spec_mode -= 1
+                s0.cur = save
+                s0.frames.pop(fid, None)
+            ety = v.ty if not isinstance(v, VEnum) else INT
+            l = self.new_list(s0, ety)
+            n = z3.Int(fresh_name('clen'))
+            arr = z3.Const(fresh_name('carr'), z3.ArraySort(I, sort_of(ety)))
+            s0.assume(n >= 0)
+            self.list_store(s0, l, n, arr)
+            if member is not None and isinstance(e.elt, ast.Name) and isinstance(comp.target, ast.Name) and e.elt.id == comp.target.id and it.mode == 'keys':
+                i = z3.Int(fresh_name('ci'))
+                elem = z3.Select(arr, i)
+                body = z3.And(member(elem), *[z3.substitute(c, (bound, elem)) for c in conds])
+                s0.assume(z3.ForAll([i], z3.Implies(z3.And(0 <= i, i < n), body)))
+            out.append((s0, l))
+        return out
 
     def do_await(self, st, e):
         """`await x`: a scheduling point.  The awaited expression is evaluated; obligations attached to this point
@@ -313,12 +371,15 @@ class Engine(_Base, ExprMixin, CallMixin, StmtMixin):
 
     def _verify(self, c, info):
         st, env = self.entry_state_for(c, info)
+        post_setup = None
         if c.setup is not None:
-            c.setup(self, st, env)
+            post_setup = c.setup(self, st, env)        # may return a callable: ghost updates that apply AFTER the preconditions
         for r in c.requires:
             st.assume(self.eval_clause(st, r, env, info))
         if not feasible(st.pc):
             raise Unsupported('precondition of %s is unsatisfiable (vacuous contract)' % c.target)
+        if callable(post_setup):
+            post_setup(self, st, env)
         entry = st.copy()
         self.entry_state = entry
         self.entry_env = env
